@@ -140,7 +140,7 @@ fn run_nat(case: &Case, out: &mut dyn FnMut(String)) {
                 if !a.is_nan() && a.exp() > BIG {
                     "skip".into()
                 } else {
-                    format!("d={a} b={a:b} o={a:o} x={a:x} X={a:X} D={a:?}")
+                    format!("d={a} b={a:b} o={a:o} x={a:x} X={a:X}")
                 }
             }
             "fmtf" => {
